@@ -341,6 +341,71 @@ def run(ctx):
         run_cfg(ctx, ctx.prog(cfg), cfg)
 
 
+def rule_move_file(ctx, p, cfg, rid="R5"):
+    with ctx.rule(rid, "move_file contract", cfg) as r:
+        ro = roles(p)
+        m = ro["move_file"]
+        rn = m.call1("std::fs::rename", "fs::rename")
+        r.require(deep_strip(rn.arg(0)) == ("param", 1) and deep_strip(rn.arg(1)) == ("param", 2), "rename-src-dst", fn=m, site=rn.at, detail="rename(%s, %s)" % (show(rn.arg(0)), show(rn.arg(1))))
+        for c in m.calls():
+            if c.callee in ("std::fs::copy", "std::fs::remove_file"):
+                r.require(m.dominates(rn.block, c.block), "rename-first:%s" % c.callee, fn=m, detail="rename is attempted before %s" % c.callee)
+        sw = None
+        for blk in m.blocks:
+            if blk["term"]["k"] == "switch" and blk["id"] in m.reachable_blocks():
+                si = SwitchInfo(m, blk["id"])
+                d = strip(si.discr)
+                if d[0] == "discr" and strip(d[1])[0] == "call" and strip(d[1])[1] == "std::fs::rename":
+                    sw = si
+        if sw is None:
+            raise ShapeUnrecognised("no match on rename's Result in move_file")
+        cp = m.calls("std::fs::copy")
+        r.require(len(cp) == 1, "one-copy", fn=m, detail="fs::copy sites: %d" % len(cp))
+        okt, ert = sw.target_of("Ok"), sw.target_of("Err")
+        okr = m.reach(okt, include_src=True) - m.reach(ert, include_src=True)
+        rets_ok = [e for b, e in q.ret_assignments(m) if b in okr or b == okt]
+        r.require(not any(c.block in okr for c in cp) and (not rets_ok or all(q.classify_ret(e) == "ok" for e in rets_ok)), "ok-means-done", fn=m, detail="rename Ok => return Ok(()) without copying")
+        # NotFound tolerated
+        nf_sw = None
+        for blk in m.blocks:
+            if blk["term"]["k"] == "switch" and blk["id"] in m.reach(ert, include_src=True):
+                si = SwitchInfo(m, blk["id"])
+                nf = cmp_nf(si.discr, True)
+                if nf and nf[0] == "Eq" and any(x[0] == "agg" and x[2] == "NotFound" or (x[0] == "const" and x[2] == "NotFound") for y in (nf[1], nf[2]) for x in walk(y)) \
+                        and any(x[0] == "call" and x[1] == "std::io::error::Error::kind" for y in (nf[1], nf[2]) for x in walk(y)):
+                    nf_sw = si
+        r.require(nf_sw is not None, "notfound-tested", fn=m, detail="the rename error kind is compared with NotFound")
+        if nf_sw and cp:
+            tt, ft = nf_sw.target_of(True), nf_sw.target_of(False)
+            r.require(cp[0].block not in m.reach(tt, include_src=True), "notfound-tolerated", fn=m, detail="NotFound => Ok without copy (missing intermediate archives are fine)")
+            tr = [e for b, e in q.ret_assignments(m) if b in m.reach(tt, include_src=True) and b not in m.reach(ft, include_src=True)]
+            r.require(cp[0].block in m.reach(ft, include_src=True), "other-errors-fall-back-to-copy", fn=m, detail="any other rename error falls back to copy")
+        if cp:
+            c = cp[0]
+            r.require(deep_strip(c.arg(0)) == ("param", 1) and deep_strip(c.arg(1)) == ("param", 2), "copy-src-dst", fn=m, site=c.at, detail="copy(src, dst)")
+            # remove only on success: remove_file(src) inside the closure handed to and_then on the copy's result, or on its Ok edge
+            rm = [x for x in p.all_calls("std::fs::remove_file") if x.fn is m or x.fn.d.get("closure_of") == m.path]
+            r.require(len(rm) == 1, "one-remove", fn=m, detail="remove_file sites in move_file: %d" % len(rm))
+            if rm:
+                x = rm[0]
+                if x.fn is m:
+                    conds = m.conditions(x.block)
+                    ok = any(strip(si.discr)[0] == "discr" and any(y[0] == "call" and y[1] == "std::fs::copy" for y in walk(si.discr)) and {si.label(v) for v, _ in al} <= {"Ok", "Continue"} for sb, si, al in conds)
+                    src_ok = deep_strip(x.arg(0)) == ("param", 1)
+                else:
+                    at = [k for k in m.calls(lambda n: n in ("core::result::Result::<T, E>::and_then", "core::result::Result::<T, E>::map"))
+                          if strip(k.arg(0))[0] == "call" and strip(k.arg(0))[1] == "std::fs::copy" and any(y[0] == "closure" and y[1] == x.fn.path for y in walk(k.arg(1)))]
+                    ok = bool(at)
+                    # closure captures &src
+                    clo = [y for k in at for y in walk(k.arg(1)) if y[0] == "closure"]
+                    src_ok = bool(clo) and any(deep_strip(cx) == ("param", 1) for cx in clo[0][2])
+                    ret = m.local_expr(0)
+                    ok = ok and any(y[0] == "call" and y[1].endswith("and_then") for y in walk(ret))
+                r.require(ok, "remove-only-after-successful-copy", fn=m, site=x.at, detail="remove_file runs only on the copy's success edge and its result is returned")
+                r.require(src_ok, "removes-the-source", fn=m, site=x.at, detail="the removed file is the source")
+
+
+
 def run_cfg(ctx, p, cfg):
     feats = set(p.meta.get("features", []))
     bg = "background_rotation" in feats
@@ -438,67 +503,7 @@ def run_cfg(ctx, p, cfg):
             nzr = f.reach(nz, include_src=True)
             r.require(any(c.block in nzr for c in f.calls(ro["rotate"].path)) or bg, "otherwise-rotates", fn=f, detail="count != 0 reaches rotate")
 
-    with ctx.rule("R5", "move_file contract", cfg) as r:
-        ro = roles(p)
-        m = ro["move_file"]
-        rn = m.call1("std::fs::rename", "fs::rename")
-        r.require(deep_strip(rn.arg(0)) == ("param", 1) and deep_strip(rn.arg(1)) == ("param", 2), "rename-src-dst", fn=m, site=rn.at, detail="rename(%s, %s)" % (show(rn.arg(0)), show(rn.arg(1))))
-        for c in m.calls():
-            if c.callee in ("std::fs::copy", "std::fs::remove_file"):
-                r.require(m.dominates(rn.block, c.block), "rename-first:%s" % c.callee, fn=m, detail="rename is attempted before %s" % c.callee)
-        sw = None
-        for blk in m.blocks:
-            if blk["term"]["k"] == "switch" and blk["id"] in m.reachable_blocks():
-                si = SwitchInfo(m, blk["id"])
-                d = strip(si.discr)
-                if d[0] == "discr" and strip(d[1])[0] == "call" and strip(d[1])[1] == "std::fs::rename":
-                    sw = si
-        if sw is None:
-            raise ShapeUnrecognised("no match on rename's Result in move_file")
-        cp = m.calls("std::fs::copy")
-        r.require(len(cp) == 1, "one-copy", fn=m, detail="fs::copy sites: %d" % len(cp))
-        okt, ert = sw.target_of("Ok"), sw.target_of("Err")
-        okr = m.reach(okt, include_src=True) - m.reach(ert, include_src=True)
-        rets_ok = [e for b, e in q.ret_assignments(m) if b in okr or b == okt]
-        r.require(not any(c.block in okr for c in cp) and (not rets_ok or all(q.classify_ret(e) == "ok" for e in rets_ok)), "ok-means-done", fn=m, detail="rename Ok => return Ok(()) without copying")
-        # NotFound tolerated
-        nf_sw = None
-        for blk in m.blocks:
-            if blk["term"]["k"] == "switch" and blk["id"] in m.reach(ert, include_src=True):
-                si = SwitchInfo(m, blk["id"])
-                nf = cmp_nf(si.discr, True)
-                if nf and nf[0] == "Eq" and any(x[0] == "agg" and x[2] == "NotFound" or (x[0] == "const" and x[2] == "NotFound") for y in (nf[1], nf[2]) for x in walk(y)) \
-                        and any(x[0] == "call" and x[1] == "std::io::error::Error::kind" for y in (nf[1], nf[2]) for x in walk(y)):
-                    nf_sw = si
-        r.require(nf_sw is not None, "notfound-tested", fn=m, detail="the rename error kind is compared with NotFound")
-        if nf_sw and cp:
-            tt, ft = nf_sw.target_of(True), nf_sw.target_of(False)
-            r.require(cp[0].block not in m.reach(tt, include_src=True), "notfound-tolerated", fn=m, detail="NotFound => Ok without copy (missing intermediate archives are fine)")
-            tr = [e for b, e in q.ret_assignments(m) if b in m.reach(tt, include_src=True) and b not in m.reach(ft, include_src=True)]
-            r.require(cp[0].block in m.reach(ft, include_src=True), "other-errors-fall-back-to-copy", fn=m, detail="any other rename error falls back to copy")
-        if cp:
-            c = cp[0]
-            r.require(deep_strip(c.arg(0)) == ("param", 1) and deep_strip(c.arg(1)) == ("param", 2), "copy-src-dst", fn=m, site=c.at, detail="copy(src, dst)")
-            # remove only on success: remove_file(src) inside the closure handed to and_then on the copy's result, or on its Ok edge
-            rm = [x for x in p.all_calls("std::fs::remove_file") if x.fn is m or x.fn.d.get("closure_of") == m.path]
-            r.require(len(rm) == 1, "one-remove", fn=m, detail="remove_file sites in move_file: %d" % len(rm))
-            if rm:
-                x = rm[0]
-                if x.fn is m:
-                    conds = m.conditions(x.block)
-                    ok = any(strip(si.discr)[0] == "discr" and any(y[0] == "call" and y[1] == "std::fs::copy" for y in walk(si.discr)) and {si.label(v) for v, _ in al} <= {"Ok", "Continue"} for sb, si, al in conds)
-                    src_ok = deep_strip(x.arg(0)) == ("param", 1)
-                else:
-                    at = [k for k in m.calls(lambda n: n in ("core::result::Result::<T, E>::and_then", "core::result::Result::<T, E>::map"))
-                          if strip(k.arg(0))[0] == "call" and strip(k.arg(0))[1] == "std::fs::copy" and any(y[0] == "closure" and y[1] == x.fn.path for y in walk(k.arg(1)))]
-                    ok = bool(at)
-                    # closure captures &src
-                    clo = [y for k in at for y in walk(k.arg(1)) if y[0] == "closure"]
-                    src_ok = bool(clo) and any(deep_strip(cx) == ("param", 1) for cx in clo[0][2])
-                    ret = m.local_expr(0)
-                    ok = ok and any(y[0] == "call" and y[1].endswith("and_then") for y in walk(ret))
-                r.require(ok, "remove-only-after-successful-copy", fn=m, site=x.at, detail="remove_file runs only on the copy's success edge and its result is returned")
-                r.require(src_ok, "removes-the-source", fn=m, site=x.at, detail="the removed file is the source")
+    rule_move_file(ctx, p, cfg, "R5")
 
     if "gzip" in feats or "zstd" in feats:
         with ctx.rule("R6", "compression arms", cfg) as r:
